@@ -4,6 +4,7 @@ import Driver.C05
 import Driver.Ref
 import Driver.C19
 import Driver.C06
+import Driver.C12
 
 open Driver
 
@@ -34,6 +35,9 @@ def main (args : List String) : IO UInt32 := do
     return 0
   | ["c06"] =>
     forLines stdin fun l => stdout.putStrLn (c06Line (fields l))
+    return 0
+  | ["c12"] =>
+    forLines stdin fun l => stdout.putStrLn (c12Line (fields l))
     return 0
   | _ =>
     IO.eprintln "usage: cbdriver <cmd>"
